@@ -3,6 +3,7 @@
 package main
 
 import (
+	"bytes"
 	"fmt"
 	"io"
 	"os"
@@ -240,6 +241,26 @@ func c10OpsStream(o *out, r *rng, thorough bool) {
 			o.count("view:" + kind)
 			o.count(fmt.Sprintf("short-reads:%v", short))
 			o.emit(fmt.Sprintf("fileops %d %s %s %s", sm, encodeTree(nodes), hx([]byte(im.node.path)), encodeOps(ops)), obs, "ops="+strings.Join(ref, ","), fmt.Sprintf("ops%d", i))
+			// opened for writing - read-write included - the file is passed through as stored: no view in front of it
+			{
+				rw := "rw=openerr"
+				if g, err := fsys.OpenFile(im.node.path, os.O_RDWR, 0); err == nil {
+					rw = "rw=raw"
+					for _, off := range []int64{0, 0xF70, 5 * 2048, im.node.size - 2048} {
+						if off < 0 || off >= im.node.size {
+							continue
+						}
+						buf := make([]byte, 2048)
+						n, _ := g.ReadAt(buf, off)
+						if !bytes.Equal(buf[:n], im.node.slice(off, int64(n))) {
+							rw = fmt.Sprintf("rw=TRANSFORMED@%d", off)
+						}
+					}
+					g.Close()
+				}
+				o.count("opened-read-write:" + kind)
+				o.emit("c11rw "+kind, rw, "rw=raw", fmt.Sprintf("rw%d", i))
+			}
 			if kind == "3k3y-dec" {
 				return
 			}
